@@ -1,3 +1,5 @@
+import IslaVerif.Model.XPath
+import IslaVerif.Proofs.XPath
 import IslaVerif.Model.Formula
 import IslaVerif.Proofs.C09
 /-
@@ -110,3 +112,246 @@ theorem pushin_and_mp (I : Interp Env) (ρ : Env) (q : Nat) (A B : F) (hA : Inde
   exact ⟨(hA ρ' hρ').2 h1, h2 ρ' hρ'⟩
 
 end IslaVerif.C08
+
+/-
+C08x — the documented translation of the XPath CHILD step `n.<T>[i]` means what it says.
+
+`forall <V> n in c: φ(n.<T>[i])` is documented to mean: for every alternative `e` of `<V>` with at
+least `i` occurrences of `<T>`, `forall <V> n="e, the i-th <T> bound to x" in c: φ(x)`, combined
+by conjunction (`exists`: disjunction).  In the model this is ONE quantifier carrying the list
+`childMTrees g V T i x` of match-expression trees (`list_is_conjunction` / `list_is_disjunction`
+relate the two forms).  Proved:
+* (a) `match_child`: a tree of the translation that matches a node binds exactly `x`, to the
+  `i`-th `<T>`-labelled child of the node;
+* (b) `match_child_complete`: if the node is labelled `<V>`, is expanded by one of `<V>`'s
+  alternatives and has an `i`-th `<T>`-child, some tree of the translation matches;
+* (c) `xpath_child_all`, `xpath_child_ex`: the translated quantifier ranges exactly over the nodes
+  labelled `<V>` in the in-tree that HAVE an `i`-th `<T>`-child (nodes without one are skipped by
+  `forall` and cannot witness `exists`), `n` bound to the node and `x` to the child;
+  `…_valid`: the expansion hypothesis follows from validity of the reference tree when `T ≠ ""`;
+* (d) `nthOcc_spec`, `childMTrees_eq_nil_iff`, `childMTrees_length`.
+The only hypothesis is that the nodes in question are expanded by an alternative of `<V>`
+*literally* (children labels = alternative).  `DTree.valid` also accepts the ε-alternative realised
+by a single `""` child; such a node has no `T`-child for `T ≠ ""`, hence `T ≠ ""` suffices.
+-/
+namespace IslaVerif.C08x
+open IslaVerif IslaVerif.Sem IslaVerif.XPath
+
+/-! ### (a), (b) -/
+
+theorem match_child (g : Grammar) (V T : String) (i : Nat) (x : String) (pos : Path) (t : DTree)
+    (m : MTree) (bs : List (String × Path)) (hm : m ∈ childMTrees g V T i x)
+    (h : matchM pos t m.tree m.binds = some bs) :
+    ∃ k, bs = [(x, pos ++ [k])] ∧ nthChild T i t = some k :=
+  XPath.match_child g V T i x pos t m bs hm h
+
+/-- more: the matched node is labelled `V` and is expanded by the alternative of the tree -/
+theorem match_child_full (g : Grammar) (V T : String) (i : Nat) (x : String) (pos : Path) (t : DTree)
+    (m : MTree) (bs : List (String × Path)) (hm : m ∈ childMTrees g V T i x)
+    (h : matchM pos t m.tree m.binds = some bs) :
+    ∃ e k, e ∈ (g.alts V).getD [] ∧ m = { tree := altTree g V e, binds := [(x, [k])] } ∧
+      t.sym = V ∧ t.kids.map DTree.sym = e ∧ bs = [(x, pos ++ [k])] ∧ nthChild T i t = some k :=
+  XPath.match_child_full g V T i x pos t m bs hm h
+
+theorem match_child_complete (g : Grammar) (V T : String) (i : Nat) (x : String) (pos : Path)
+    (t : DTree) (k : Nat) (hs : t.sym = V) (he : t.kids.map DTree.sym ∈ (g.alts V).getD [])
+    (hk : nthChild T i t = some k) :
+    ∃ m, m ∈ childMTrees g V T i x ∧ matchM pos t m.tree m.binds = some [(x, pos ++ [k])] :=
+  XPath.match_child_complete g V T i x pos t k hs he hk
+
+/-- the same with the hypothesis in the `∃ e` form -/
+theorem match_child_complete_of_alt (g : Grammar) (V T : String) (i : Nat) (x : String) (pos : Path)
+    (t : DTree) (k : Nat) (hs : t.sym = V)
+    (he : ∃ e ∈ (g.alts V).getD [], t.kids.map DTree.sym = e)
+    (hk : nthChild T i t = some k) :
+    ∃ m, m ∈ childMTrees g V T i x ∧ matchM pos t m.tree m.binds = some [(x, pos ++ [k])] := by
+  obtain ⟨e, he1, he2⟩ := he
+  exact XPath.match_child_complete g V T i x pos t k hs (he2 ▸ he1) hk
+
+/-- all trees of the translation that match a node give the same binding -/
+theorem match_child_unique (g : Grammar) (V T : String) (i : Nat) (x : String) (pos : Path) (t : DTree)
+    (m m' : MTree) (bs bs' : List (String × Path)) (hm : m ∈ childMTrees g V T i x)
+    (hm' : m' ∈ childMTrees g V T i x) (h : matchM pos t m.tree m.binds = some bs)
+    (h' : matchM pos t m'.tree m'.binds = some bs') : bs = bs' :=
+  XPath.match_child_unique g V T i x pos t m m' bs bs' hm hm' h h'
+
+/-- a valid node with at least one child, whose children are not the single `""` leaf of an
+ε-expansion, is expanded by one of its symbol's alternatives literally -/
+theorem expanded_of_valid (g : Grammar) (t : DTree) (hv : t.valid g = true) (hne : t.kids ≠ [])
+    (h0 : t.kids.map DTree.sym ≠ [""]) : t.kids.map DTree.sym ∈ (g.alts t.sym).getD [] :=
+  XPath.expanded_of_valid g t hv hne h0
+
+/-- for `T ≠ ""`, a valid node that has an `i`-th `T`-child is expanded by an alternative -/
+theorem expanded_of_valid_nthChild (g : Grammar) (T : String) (i k : Nat) (t : DTree)
+    (hT : T ≠ "") (hv : t.valid g = true) (hk : nthChild T i t = some k) :
+    t.kids.map DTree.sym ∈ (g.alts t.sym).getD [] :=
+  XPath.expanded_of_valid_nthChild g T i k t hT hv hk
+
+/-! ### (c) -/
+
+/-- the instances of the translated quantifier -/
+theorem matchInst_child (w : World) (β : Env) (n V c T : String) (i : Nat) (x : String)
+    (hv : ∀ p sub q t k, β.get c = some (.path p) → w.root.get p = some sub → sub.get q = some t →
+      t.sym = V → nthChild T i t = some k → t.kids.map DTree.sym ∈ (w.g.alts V).getD [])
+    (β' : Env) :
+    MatchInst w β n V c (childMTrees w.g V T i x) β' ↔
+      ∃ p sub q t k, β.get c = some (.path p) ∧ w.root.get p = some sub ∧ sub.get q = some t ∧
+        t.sym = V ∧ nthChild T i t = some k ∧
+        β' = (n, Bind.path (p ++ q)) :: (x, Bind.path (p ++ q ++ [k])) :: β :=
+  XPath.matchInst_child w β n V c T i x hv β'
+
+theorem xpath_child_all (w : World) (β : Env) (n V c T : String) (i : Nat) (x : String) (φ : Fm)
+    (hv : ∀ p sub q t k, β.get c = some (.path p) → w.root.get p = some sub → sub.get q = some t →
+      t.sym = V → nthChild T i t = some k → t.kids.map DTree.sym ∈ (w.g.alts V).getD []) :
+    Sat w β (.all n V c (some (childMTrees w.g V T i x)) φ) ↔
+      ∀ p sub q t k, β.get c = some (.path p) → w.root.get p = some sub → sub.get q = some t →
+        t.sym = V → nthChild T i t = some k →
+        Sat w ((n, .path (p ++ q)) :: (x, .path (p ++ q ++ [k])) :: β) φ :=
+  XPath.xpath_child_all w β n V c T i x φ hv
+
+theorem xpath_child_ex (w : World) (β : Env) (n V c T : String) (i : Nat) (x : String) (φ : Fm)
+    (hv : ∀ p sub q t k, β.get c = some (.path p) → w.root.get p = some sub → sub.get q = some t →
+      t.sym = V → nthChild T i t = some k → t.kids.map DTree.sym ∈ (w.g.alts V).getD []) :
+    Sat w β (.ex n V c (some (childMTrees w.g V T i x)) φ) ↔
+      ∃ p sub q t k, β.get c = some (.path p) ∧ w.root.get p = some sub ∧ sub.get q = some t ∧
+        t.sym = V ∧ nthChild T i t = some k ∧
+        Sat w ((n, .path (p ++ q)) :: (x, .path (p ++ q ++ [k])) :: β) φ :=
+  XPath.xpath_child_ex w β n V c T i x φ hv
+
+/-- `←` of `xpath_child_all` needs no hypothesis at all: the translation never binds anything but
+the `i`-th `T`-child -/
+theorem xpath_child_all_of (w : World) (β : Env) (n V c T : String) (i : Nat) (x : String) (φ : Fm)
+    (h : ∀ p sub q t k, β.get c = some (.path p) → w.root.get p = some sub → sub.get q = some t →
+        t.sym = V → nthChild T i t = some k →
+        Sat w ((n, .path (p ++ q)) :: (x, .path (p ++ q ++ [k])) :: β) φ) :
+    Sat w β (.all n V c (some (childMTrees w.g V T i x)) φ) :=
+  XPath.xpath_child_all_of w β n V c T i x φ h
+
+/-- `→` of `xpath_child_ex` needs no hypothesis either -/
+theorem xpath_child_ex_elim (w : World) (β : Env) (n V c T : String) (i : Nat) (x : String) (φ : Fm)
+    (h : Sat w β (.ex n V c (some (childMTrees w.g V T i x)) φ)) :
+    ∃ p sub q t k, β.get c = some (.path p) ∧ w.root.get p = some sub ∧ sub.get q = some t ∧
+      t.sym = V ∧ nthChild T i t = some k ∧
+      Sat w ((n, .path (p ++ q)) :: (x, .path (p ++ q ++ [k])) :: β) φ :=
+  XPath.xpath_child_ex_elim w β n V c T i x φ h
+
+/-- on a valid reference tree, for `T ≠ ""` -/
+theorem xpath_child_all_valid (w : World) (β : Env) (n V c T : String) (i : Nat) (x : String)
+    (φ : Fm) (hT : T ≠ "") (hroot : w.root.valid w.g = true) :
+    Sat w β (.all n V c (some (childMTrees w.g V T i x)) φ) ↔
+      ∀ p sub q t k, β.get c = some (.path p) → w.root.get p = some sub → sub.get q = some t →
+        t.sym = V → nthChild T i t = some k →
+        Sat w ((n, .path (p ++ q)) :: (x, .path (p ++ q ++ [k])) :: β) φ :=
+  XPath.xpath_child_all w β n V c T i x φ (XPath.expanded_in_valid w β V c T i hT hroot)
+
+theorem xpath_child_ex_valid (w : World) (β : Env) (n V c T : String) (i : Nat) (x : String)
+    (φ : Fm) (hT : T ≠ "") (hroot : w.root.valid w.g = true) :
+    Sat w β (.ex n V c (some (childMTrees w.g V T i x)) φ) ↔
+      ∃ p sub q t k, β.get c = some (.path p) ∧ w.root.get p = some sub ∧ sub.get q = some t ∧
+        t.sym = V ∧ nthChild T i t = some k ∧
+        Sat w ((n, .path (p ++ q)) :: (x, .path (p ++ q ++ [k])) :: β) φ :=
+  XPath.xpath_child_ex w β n V c T i x φ (XPath.expanded_in_valid w β V c T i hT hroot)
+
+/-- the documented form — one quantifier per match-expression tree, combined by conjunction — and
+the model's form — one quantifier with the list of trees — mean the same -/
+theorem list_is_conjunction (w : World) (β : Env) (v ty c : String) (ms : List MTree) (f : Fm) :
+    Sat w β (.conj (ms.map fun m => .all v ty c (some [m]) f)) ↔ Sat w β (.all v ty c (some ms) f) :=
+  XPath.all_mexprs_iff_conj w β v ty c ms f
+
+theorem list_is_disjunction (w : World) (β : Env) (v ty c : String) (ms : List MTree) (f : Fm) :
+    Sat w β (.disj (ms.map fun m => .ex v ty c (some [m]) f)) ↔ Sat w β (.ex v ty c (some ms) f) :=
+  XPath.ex_mexprs_iff_disj w β v ty c ms f
+
+/-! ### (d) -/
+
+/-- `nthOcc` returns the position that carries `T` and has exactly `i - 1` occurrences of `T`
+before it (and only that one) -/
+theorem nthOcc_spec (T : String) (i : Nat) (e : List String) (k : Nat) :
+    nthOcc T i e 0 = some k ↔ e[k]? = some T ∧ (e.take k).count T + 1 = i :=
+  XPath.nthOcc_spec T i e k
+
+theorem nthOcc_eq_none_iff (T : String) (e : List String) (i pos : Nat) :
+    nthOcc T i e pos = none ↔ i = 0 ∨ e.count T < i :=
+  XPath.nthOcc_eq_none_iff T e i pos
+
+theorem childMTrees_eq_nil_iff (g : Grammar) (V T : String) (i : Nat) (x : String) :
+    childMTrees g V T i x = [] ↔ ∀ e ∈ (g.alts V).getD [], i = 0 ∨ e.count T < i :=
+  XPath.childMTrees_eq_nil_iff g V T i x
+
+theorem childMTrees_length (g : Grammar) (V T : String) (i : Nat) (x : String) :
+    (childMTrees g V T i x).length =
+      (((g.alts V).getD []).filter fun e => decide (1 ≤ i ∧ i ≤ e.count T)).length :=
+  XPath.childMTrees_length g V T i x
+
+/-! ### examples -/
+
+/-- `altTree` as in the documentation of the model -/
+example (g : Grammar) (V : String) (e : List String) :
+    altTree g V e =
+      .node 0 V (e.map fun s => if g.isNT s then .openLeaf 0 s else .node 0 s []) := rfl
+
+def asg : Grammar :=
+  [("<start>", [["<stmt>"]]), ("<stmt>", [["<assgn>"], ["<assgn>", " ; ", "<stmt>"]]),
+   ("<assgn>", [["<var>", " := ", "<rhs>"]]), ("<rhs>", [["<var>"], ["<digit>"]]),
+   ("<var>", [["a"], ["b"]]), ("<digit>", [["0"], ["1"]])]
+
+def pairs : Grammar :=
+  [("<start>", [["<pair>"]]),
+   ("<pair>", [["<key>", "=", "<val>"], ["<key>", "=", "<val>", "=", "<val>"]]),
+   ("<key>", [["k"]]), ("<val>", [["v"]])]
+
+/-- `<pair>.<val>[2]`: exactly one tree (the long alternative), binding position 4 -/
+example : (childMTrees pairs "<pair>" "<val>" 2 "x").map (·.binds) = [[("x", [4])]] := by decide
+example : (childMTrees pairs "<pair>" "<val>" 2 "x").map (·.tree) =
+    [.node 0 "<pair>" [.openLeaf 0 "<key>", .node 0 "=" [], .openLeaf 0 "<val>", .node 0 "=" [],
+      .openLeaf 0 "<val>"]] := by rfl
+/-- `<pair>.<val>[1]`: two trees, both binding position 2 -/
+example : (childMTrees pairs "<pair>" "<val>" 1 "x").length = 2 := by decide
+example : (childMTrees pairs "<pair>" "<val>" 1 "x").map (·.binds) =
+    [[("x", [2])], [("x", [2])]] := by decide
+example : childMTrees pairs "<pair>" "<val>" 3 "x" = [] := by rfl
+example : childMTrees pairs "<pair>" "<val>" 0 "x" = [] := by rfl
+example : childMTrees pairs "<nope>" "<val>" 1 "x" = [] := by rfl
+
+/-- assignment grammar: `<stmt>.<stmt>[1]` only exists in the second alternative -/
+example : (childMTrees asg "<stmt>" "<stmt>" 1 "x").map (·.binds) = [[("x", [2])]] := by decide
+example : (childMTrees asg "<stmt>" "<assgn>" 1 "x").map (·.binds) =
+    [[("x", [0])], [("x", [0])]] := by decide
+example : childMTrees asg "<stmt>" "<assgn>" 2 "x" = [] := by rfl
+example : (childMTrees asg "<rhs>" "<var>" 1 "x").map (·.tree) =
+    [.node 0 "<rhs>" [.openLeaf 0 "<var>"]] := by rfl
+example : (childMTrees asg "<assgn>" "<rhs>" 1 "x").map (·.tree) =
+    [.node 0 "<assgn>" [.openLeaf 0 "<var>", .node 0 " := " [], .openLeaf 0 "<rhs>"]] := by rfl
+
+/-- matching concrete nodes -/
+def stmt2 : DTree := .node 1 "<stmt>" [.node 2 "<assgn>" [], .node 3 " ; " [], .node 4 "<stmt>" []]
+def stmt1 : DTree := .node 1 "<stmt>" [.node 2 "<assgn>" []]
+
+example : nthChild "<stmt>" 1 stmt2 = some 2 := by decide
+example : nthChild "<stmt>" 1 stmt1 = none := by decide
+example : (childMTrees asg "<stmt>" "<stmt>" 1 "x").filterMap
+    (fun m => matchM [0] stmt2 m.tree m.binds) = [[("x", [0, 2])]] := by decide
+example : (childMTrees asg "<stmt>" "<stmt>" 1 "x").filterMap
+    (fun m => matchM [0] stmt1 m.tree m.binds) = [] := by decide
+/-- both `<assgn>`-trees exist, but only the one of the node's own alternative matches -/
+example : (childMTrees asg "<stmt>" "<assgn>" 1 "x").map
+    (fun m => matchM [] stmt2 m.tree m.binds) = [none, some [("x", [0])]] := by decide
+
+/-- end to end with the reference evaluator: in `a ; a` (schematically) only the outer `<stmt>`
+has a `<stmt>`-child; the single instance binds `n` to it and `x` to its third child -/
+def root2 : DTree :=
+  .node 0 "<start>" [.node 1 "<stmt>" [.node 2 "<assgn>" [], .node 3 " ; " [],
+    .node 4 "<stmt>" [.node 5 "<assgn>" []]]]
+def w2 : World := { g := asg, root := root2, isNT := fun s => s.startsWith "<", intBound := 2 }
+
+example : mexprInstances w2 [("start", .path [])] "n" [[0], [0, 2]]
+    (childMTrees asg "<stmt>" "<stmt>" 1 "x") =
+    [[("n", .path [0]), ("x", .path [0, 2]), ("start", .path [])]] := by decide
+example : evalRef w2 [("start", .path [])]
+    (childAll asg "n" "<stmt>" "start" "<stmt>" 1 "x"
+      (.pred "direct_child" [.var "x", .var "n"])) = some true := by decide
+/-- no `<stmt>` has a second `<assgn>`-child: `exists` is false even for the body `true` -/
+example : evalRef w2 [("start", .path [])]
+    (childEx asg "n" "<stmt>" "start" "<assgn>" 2 "x" (.conj [])) = some false := by decide
+
+end IslaVerif.C08x
